@@ -1377,6 +1377,13 @@ func runROOTDIRTY(c *Ctx) {
 					}
 					if clearers[ir.Outermost(fn)] {
 						c.OK(pos, "mark "+f2+" cleared in "+ir.FuncName(fn), "by the function that persists the tree (it equals a stored version afterwards)", false)
+					} else if v, isC := ir.ConstBool(st2.Val); isC && !v && clearedWithDirtyRoot(st2, func(val ssa.Value, at ssa.Instruction) bool {
+						k, ok := classify(val, at, nil, 0)
+						return ok && k == "dirty node"
+					}) {
+						// IsDirty reads the mark only where the root is nil; a dirty in-memory node installed as root in the same
+						// block answers 'modified' by itself, and every later nil root sets the mark again
+						c.OK(pos, "mark "+f2+" cleared in "+ir.FuncName(fn), "together with the installation of a dirty in-memory root, which answers for the tree by itself", false)
 					} else {
 						c.Violation(fn, pos, "emptied mark cleared outside the persisting function",
 							"Mast."+f2+" is what lets IsDirty answer 'modified' for a tree whose last entry was deleted; it is cleared (or overwritten with a computed value) in a function that does not persist the tree, so that tree — or the copy made here — reports 'clean' with no entries although the version it came from has some")
@@ -1434,6 +1441,25 @@ func runROOTDIRTY(c *Ctx) {
 			}
 		}
 	}
+}
+
+// clearedWithDirtyRoot: the block that clears the mark also stores, into the root of the same tree, a value the
+// classifier calls a dirty in-memory node.
+func clearedWithDirtyRoot(clear *ssa.Store, dirtyNode func(ssa.Value, ssa.Instruction) bool) bool {
+	cbase, _, _, ok := mastFieldStore(clear)
+	if !ok {
+		return false
+	}
+	for _, ins := range clear.Block().Instrs {
+		base, f, st, ok := mastFieldStore(ins)
+		if !ok || f != "root" || ir.Sym(base) != ir.Sym(cbase) {
+			continue
+		}
+		if dirtyNode(st.Val, st) {
+			return true
+		}
+	}
+	return false
 }
 
 // ---- LOADLIMIT ------------------------------------------------------------------------
